@@ -481,12 +481,60 @@ def r6_error_sites(report, repo, rule='C15-R6'):
   report.expect_instances(rule, n, 30, 'printf-style format sites')
 
 
+def r7_drain(report, repo):
+  rule = 'C15-R7'
+  report.rule(rule, 'T-DOM: a closed stream still hands out what was buffered: '
+              'AdbStreamTransport.read reports "closed" only through the '
+              'message wait (never before consulting its buffer) and '
+              'read_for_stream raises AdbStreamClosedError only after the '
+              'message queue was found empty')
+  f = repo.func(AP, ST + '.read')
+  g = lib.cfg(f)
+  waits = [n for n, c in lib.nodes_with_call(
+      g, name='self._read_messages_until_true')]
+  report.expect_instances(rule, len(waits), 1, 'message waits in read()')
+  for n in g.nodes:
+    closed_test = n.kind == 'test' and 'closed_state' in norm(n.ast)
+    raises_closed = n.kind == 'stmt' and isinstance(n.ast, ast.Raise) and \
+        n.ast.exc is not None and last_attr(n.ast.exc) == 'AdbStreamClosedError'
+    if closed_test or raises_closed:
+      ok = g.dominated_by_edge(
+          n, lambda s_, l, d: s_.kind == 'test' and l == 'F' and (
+              dotted(s_.ast) in ('self._buffer_size', 'self._read_buffer')))
+      report.check(
+          ok, rule, f.qualname, 'closed-before-drain', n.ast,
+          'closed state consulted only when the buffer is empty',
+          'read() looks at the closed state / raises AdbStreamClosedError '
+          'without the buffer being known empty: data buffered when the CLSE '
+          'arrived is lost instead of being drained first')
+  report.ok(rule, f.node, 'read() serves buffered bytes through the message '
+            'wait predicate; it has no closed-state shortcut')
+  rf = repo.func(AP, 'AdbConnection.read_for_stream')
+  n = 0
+  for r in walk_no_nested(rf.node):
+    if isinstance(r, ast.Raise) and r.exc is not None and \
+        last_attr(r.exc) == 'AdbStreamClosedError':
+      n += 1
+      h = [p for p in core.parents(r) if isinstance(p, ast.ExceptHandler)]
+      ok = bool(h) and last_attr(h[0].type) == 'Empty' and any(
+          last_attr(c) == 'get_nowait'
+          for c in core.calls_in(ast.Module(body=h[0]._parent.body,
+                                            type_ignores=[])))
+      report.check(ok, rule, rf.qualname, 'closed-after-queue-empty', r,
+                   'AdbStreamClosedError only after message_queue.get_nowait() '
+                   'found nothing',
+                   'read_for_stream reports the stream closed without draining '
+                   'its message queue first')
+  report.expect_instances(rule, n, 1, 'closed-stream raises')
+
+
 def run(report, repo):
   r1_r2_connect(report, repo)
   r3_ids(report, repo)
   r4_open(report, repo)
   r5_close(report, repo)
   r6_error_sites(report, repo)
+  r7_drain(report, repo)
   from sa.rules import c14  # pylint: disable=g-import-not-at-top
   # illegal mid-session packet types (table shared with C14-R1)
   c14.r1_acks(report, repo)
